@@ -56,8 +56,12 @@ func (fc *FnCtx) Translate() (err error) {
 		fc.entry.assume(fc.wfFacts(v))
 		fc.entry.assume(fc.paramFacts(v))
 		// a captured variable is the address of a live cell of the enclosing function
-		if _, ok := fv.Type().Underlying().(*types.Pointer); ok {
+		if pt, ok := fv.Type().Underlying().(*types.Pointer); ok {
 			fc.entry.assume(ptrNonNil(v))
+			if !ptrIsThin(pt.Elem()) {
+				// a captured variable lives in its own cell (not in a struct field or slice element)
+				fc.entry.assume(and(eq(v.L[0], bvLit(0, 16)), eq(v.L[2], bvLit(0, 64))))
+			}
 		}
 	}
 	// implicit precondition: a pointer receiver is non-nil (checked at every call site)
